@@ -21,6 +21,10 @@ class LoopReport:
         self.ranked = None
         self.measure = None
         self.bound = None
+        self.carried = []     # [(atom, init Lin)] integer loop-carried symbols left havocked
+        self.backs = []       # [(pc delta literals, {atom: new Lin})] one per back-edge path
+        self.exit_kinds = []  # kinds of the non-back-edge exits ('ret', 'brk', ...), with the returned value
+        self.inv_lits = []
 
     def __repr__(self):
         return f"loop@{self.span} [{self.kind}] inv={self.invariants} rank={self.measure}"
@@ -306,6 +310,13 @@ class Loops:
             s0.pc.append(lt(Lin.atom(k_atom), for_ctx["N"]))
         n_mem = {b: len(ws) for b, ws in s0.mem.items()}
         backs, exits = self._run_body(body, s0, label, for_ctx)
+        rep.inv_lits = list(cands)
+        rep.carried = [(a, init.l) for a, init in int_syms]
+        for sb in backs:
+            cur = current(sb)
+            rep.backs.append((list(sb.pc[len(base.pc) + len(cands):]),
+                              {a: (cur.get(sym_name(a)).l if isinstance(cur.get(sym_name(a)), IntV) else None) for a, _ in int_syms}))
+        rep.exit_kinds = [(kind, v, list(sx.pc[len(base.pc) + len(cands):])) for sx, kind, v in exits]
         # ---- ranking
         if for_ctx is None:
             self._rank(rep, backs, int_syms, cands, current, sym_name)
@@ -314,6 +325,26 @@ class Loops:
             rep.measure = f"iterator over a finite sequence of {for_ctx['N']} elements"
         if not I.quiet:
             I.loop_reports.append(rep)
+        # collection pushes made by the iterations are visible after the loop (any number of them)
+        if for_ctx is None and backs:
+            tiled = self._tiling(pre, backs, int_syms, current, sym_name)
+            for sx, _, _ in exits:
+                for sb in backs:
+                    for seqk, recs in sb.colls.items():
+                        old = len(pre.colls.get(seqk, ()))
+                        have = sx.colls.get(seqk, ())
+                        for r in recs[old:]:
+                            if r not in have:
+                                have = have + (r,)
+                        sx.colls[seqk] = have
+                    for seqk, b in sb.tiles.items():
+                        if seqk not in pre.colls:
+                            sx.tiles.setdefault(seqk, b)
+                for seqk, b in tiled.items():
+                    if b is None:
+                        sx.tiles.pop(seqk, None)
+                    elif not pre.colls.get(seqk):
+                        sx.tiles[seqk] = b
         outs = []
         for s, kind, v in exits:
             if kind == "brk" and v[0] == label:
@@ -323,6 +354,52 @@ class Loops:
         if for_ctx is not None:
             outs.extend(self._for_exit(pre, base, backs, keys, closed, cands, int_syms, for_ctx, n_mem, e))
         return outs
+
+    def _first_slice(self, v, depth=0):
+        if isinstance(v, SliceV):
+            return v
+        if isinstance(v, StructV) and depth < 3:
+            for x in v.fields.values():
+                r = self._first_slice(x, depth + 1)
+                if r is not None:
+                    return r
+        return None
+
+    def _tiling(self, pre, backs, int_syms, current, sym_name):
+        """collections that receive exactly one element per iteration whose view [s, e) lies inside the
+        range the loop's offset variable advances over in that iteration (s >= S + o, e <= S + o'):
+        views pushed by different iterations are pairwise disjoint pieces of one buffer.  seq -> base | None"""
+        out = {}
+        for sb in backs:
+            cur = current(sb)
+            for seqk, recs in sb.colls.items():
+                if seqk not in pre.colls:
+                    continue  # created inside the iteration: local to it
+                new = recs[len(pre.colls.get(seqk, ())):]
+                if not new:
+                    continue
+                if len(new) != 1 or out.get(seqk, "") is None:
+                    out[seqk] = None
+                    continue
+                sl = self._first_slice(new[0][1])
+                base = None
+                if sl is not None:
+                    for a, init in int_syms:
+                        nv = cur.get(sym_name(a))
+                        if not isinstance(nv, IntV):
+                            continue
+                        A = Lin.atom(a)
+                        S = sl.start - A
+                        if a in atoms_deep(S):
+                            continue
+                        if solver.entails(sb.pc, f_and(flit(le(sl.end, S + nv.l)), flit(le(sl.start, sl.end)))):
+                            base = sl.base
+                            break
+                if base is None or out.get(seqk, base) != base:
+                    out[seqk] = None
+                else:
+                    out[seqk] = base
+        return out
 
     def _var_name(self, body, var):
         found = [None]
@@ -793,16 +870,30 @@ class Loops:
         acc = init
         if isinstance(init, IntV):
             acc = IntV(Lin.atom(("sym", I.fresh("acc") + "@fold", init.ty)), init.ty)
-        hook = getattr(I, "fold_hook", None)
-        if hook is not None:
-            r = hook(e, st, it, init, f, acc, K, N)
-            if r is not None:
-                return r
+        # sum over elements that are disjoint views of one buffer: partial sums of (at most) their
+        # lengths are bounded by the buffer's length
+        tile_base = None
+        if it.seq[0] == "coll" and isinstance(init, IntV) and init.l.is_const() and init.l.c == 0:
+            tile_base = st.tiles.get(it.seq[1].seq)
+        bounded = tile_base is not None
         for s1, v in self.elem_of(s, it.seq, it.pos + K, e):
-            I.apply_fn(s1, f, [acc, v], e)
+            sl = self._first_slice(v) if bounded else None
+            if bounded and sl is None:
+                bounded = False
+            if bounded:
+                # ghost: the partial sum before this element plus this element's extent fits the buffer
+                s1.pc.append(le(acc.l + sl.length(), Lin.atom(("len", tile_base))))
+            for s2, kd, r in I.apply_fn(s1, f, [acc, v], e):
+                if bounded and kd == "val":
+                    if not (isinstance(r, IntV) and solver.entails(s2.pc, f_and(flit(le(r.l - acc.l, sl.length())), flit(ge(r.l, acc.l))))):
+                        bounded = False
         res = init
         if isinstance(init, IntV):
             res = IntV(Lin.atom(("sym", I.fresh("fold"), init.ty)), init.ty)
+            if bounded:
+                out = st.clone()
+                out.pc.append(le(res.l, Lin.atom(("len", tile_base))))
+                return [(out, "val", res)]
         return [(st, "val", res)]
 
 
